@@ -435,3 +435,7 @@ def run(chk):
               "check_after: a lock the transaction meets is found"), F)
     # what the template builders emit the same satisfier completes, raw key hashes in tapscript included (shared with C17)
     chk.guard("R02.12", "template-completable", c17.check_template_completable, chk, F, "R02.12")
+    # two parts of one spending path that ask for the same lock stay spendable: the lock merge keeps the later of two
+    # locks of one unit, equal ones included (rule shared with C03 / C17)
+    from . import c03
+    chk.guard("R02.13", "lock-merge", c03.check_lock_merge, chk, F, "R02.13")
